@@ -86,11 +86,15 @@ Verdict(r) ==
                               : d \in {b0.dev[j] : j \in {q \in 1..Len(b0.dev) : scanned(b0.dev[q]) /\ ~open(b0.dev[q])}}}
                may == must \cup UNION {{<<d.short, k - 1, d.inst[k].type>> : k \in {j \in 1..Len(d.inst) : d.inst[j].enabled}}
                               : d \in {b0.dev[j] : j \in {q \in 1..Len(b0.dev) : scanned(b0.dev[q])}}}
+               \* entries the mapper held before the scan stay, unless the scan finds an enabled instance under the same key
+               pre == {<<r.preload[j][1], r.preload[j][2], r.preload[j][3]>> : j \in 1..Len(r.preload)}
+               mustKeys == {<<m[1], m[2]>> : m \in must}
+               kept == {p \in pre : <<p[1], p[2]>> \notin mustKeys}
                firstOK == n >= 1 /\ Name24(r.ev[1].f) = "103.StartQuiescentMode" /\ DevOf7(r.ev[1].f \div 131072) = <<"dbcast", 0>>
                lastOK == n >= 2 /\ Name24(r.ev[n].f) = "103.StopQuiescentMode" /\ DevOf7(r.ev[n].f \div 131072) = <<"dbcast", 0>>
            IN IF r.out.exc # "none" THEN Fail("raised:" \o r.out.exc, n)
               ELSE IF ~firstOK \/ ~lastOK THEN Fail("scan-not-bracketed-by-quiescent-mode", n)
-              ELSE IF ~(got \subseteq may) THEN Fail("wrong-or-disabled-instance-recorded", 0)
+              ELSE IF ~(got \subseteq (may \cup kept)) THEN Fail("wrong-or-disabled-instance-recorded", 0)
               ELSE IF ~fr.hadfault /\ ~(must \subseteq got) THEN Fail("enabled-instance-missing", 0)
               ELSE Pass
 
